@@ -353,6 +353,7 @@ class Models:
         c = self.I.choose(2, f"({a!r} {op} {b!r})@{getattr(node, 'lineno', '?')}", ["False", "True"])
         res = bool(c)
         st.cmp_facts.append((key, op, res))
+        st.cmp_raw.append((a - b, op, res))
         if (op == "==" and res) or (op == "!=" and not res):
             st.equate(a, b)
         return res
@@ -548,7 +549,12 @@ class Models:
                 lv.owner = obj
                 return lv
             if attr == "_unit_map":
-                g = GlobalMapV(f"_unit_map({self.st.tfind(obj.tid)})")
+                if getattr(t, "under_creation", False):
+                    # a class being created that has not assigned its own map yet sees the base class's map
+                    g = GlobalMapV(f"_unit_map(inherited from the base class of {self.st.tfind(obj.tid)})")
+                    g.inherited = True
+                else:
+                    g = GlobalMapV(f"_unit_map({self.st.tfind(obj.tid)})")
                 g.owner = obj
                 return g
             if attr == "_definition":
@@ -953,6 +959,8 @@ class Models:
             if attr == "partition":
                 return TupleV([StrV(None, "part0"), StrV(None, "sep"), StrV(None, "part2")])
             if attr == "format":
+                if getattr(self, "text_templates", False) and v.const is not None:
+                    return self.format_template(v, args, kwargs, n)
                 s = StrV(None, "formatted")
                 s.fmt = (v, args, kwargs)
                 return s
@@ -960,6 +968,15 @@ class Models:
                         "isupper", "islower", "isidentifier", "isascii"):
                 return OpaqueV("strpred")
             if attr == "join":
+                if getattr(self, "text_templates", False) and args:
+                    seq = self.iterate(args[0], n)
+                    if seq is not None and all(isinstance(x, StrV) for x in seq):
+                        parts = []
+                        for i, x in enumerate(seq):
+                            if i:
+                                parts.extend(self.text_parts(v))
+                            parts.extend(self.text_parts(x))
+                        return self.mk_text(parts)
                 return StrV(None, "joined")
             if attr in ("replace", "lower", "upper", "title", "capitalize", "casefold", "center", "ljust", "rjust",
                         "zfill", "expandtabs", "removeprefix", "removesuffix", "translate", "swapcase"):
